@@ -21,7 +21,8 @@ RULE = ("histories of 1..12 (thorough ..20) requests generate(n) [n 1..200, "
         "occasionally ..5000, thorough ..1e5] / skip(n) [n up to 1e10, "
         "cumulative position <= 1e10] / shape change / continue with the "
         "generator returned by get_similar_fading_generator() on a seeded "
-        "JakesSampleGenerator with Fd*Ts in {0} u [1e-5,0.5], Ts in 1e-9..1 "
+        "JakesSampleGenerator with Fd*Ts in {0} u [1e-5,0.5] u (0.5,50], Ts "
+        "in 1e-9..1 "
         "(m*10^-d, plus powers of two), L 1..16, shape None/int/tuple up to "
         "(3,2,2); a start position >= 1e6 is a forced class (about 45% of "
         "histories); plus the module level generate_jakes_samples() chunked "
@@ -90,11 +91,18 @@ def _ts_generic():
 
 @st.composite
 def _fdts(draw):
-    """Fd*Ts: 0 (time-invariant, about 1 in 10) or 1e-5..0.5"""
+    """Fd*Ts: 0 (time-invariant, about 1 in 11), 1e-5..0.5, or an
+    under-sampled process 0.5..50 (about 1 in 11; the model is defined for
+    any Doppler frequency and sampling interval)"""
     cls = draw(st.sampled_from(["wide", "high", "high", "wide", "high",
-                                "zero", "wide", "high", "special", "high"]))
+                                "zero", "wide", "high", "special", "high",
+                                "under"]))
     if cls == "zero":
         return 0.0
+    if cls == "under":
+        return draw(st.one_of(
+            st.sampled_from([1.0, 2.0, 10.0, 0.75, 1.5]),
+            st.floats(0.5, 50.0).map(lambda x: round(x, 3))))
     if cls == "special":
         return draw(st.sampled_from([0.5, 0.25, 1e-5, 0.1, 1e-3]))
     m = draw(st.floats(1.0, 9.999))
@@ -486,7 +494,8 @@ def _check_hist(case, ctx):
               "shape=int" if isinstance(shape, int) else
               "shape=tuple%d" % len(shape))
     ctx.label("Fd=0" if fd == 0.0 else
-              ("FdTs<1e-3" if fd * ts < 1e-3 else "FdTs>=1e-3"))
+              ("FdTs<1e-3" if fd * ts < 1e-3 else
+               "FdTs>=1e-3" if fd * ts <= 0.5 else "FdTs>0.5_undersampled"))
     ctx.label("start<=1e3" if max_start <= 1e3 else
               "start<=1e6" if max_start <= 1e6 else
               "start<=1e8" if max_start <= 1e8 else "start>1e8")
